@@ -15,6 +15,10 @@ The formulation is semantic: it does not care how the result is named, whether t
 It fires when the result is never stored, is overwritten before it is tested, is tested against a value that does
 not separate the failure set from success (gzwrite `< 0`), or when the failing edge falls through to a `return`.
 
+Stores are followed: the failed value may travel through locals / this-members, a boolean computed from it
+(`const bool failed = n <= 0;`) carries the definite truth value, and a function that merely hands the value back (thin
+wrapper `int raw_close(int fd) { return ::close(fd); }`) passes the obligation on to each of its call sites.
+
 Path sensitivity is limited to what the argument needs: the failure-set evaluation above, plus "same condition" facts --
 a branch over locals/parameters only (e.g. the loop test `done != size`) keeps the value it had when the call was reached
 (guard of the call) or when the walk last branched on it, until one of its variables is assigned.
@@ -399,6 +403,31 @@ def _expand(fn, cond, sense, d, out):
         _expand(fn, n['sub'], not sense, d, out)
 
 
+def atom_guards(fn, nid):
+    """guards(fn, nid) restricted to atomic conditions (the `!`, `&&`, `||` nodes themselves are dropped; their operands
+    are reported with the sense they must have had)."""
+    out = []
+    for (c, sense, b) in guards(fn, nid):
+        n = fn.sn(c)
+        if n is not None and ((n.get('k') == 'unop' and n.get('op') == '!') or (n.get('k') == 'binop' and n.get('op') in ('&&', '||'))):
+            continue
+        out.append((c, sense, b))
+    return out
+
+
+def false_edge_of(fn, blk, is_atom):
+    """Index of the successor of a two-way block taken when the atom tested by it is FALSE (leading `!` are folded), or None
+    when the block's (effective) condition is not `atom` / `!atom`."""
+    c = effective_cond(fn, blk)
+    idx = 1
+    n = fn.sn(c)
+    while n is not None and n.get('k') == 'unop' and n.get('op') == '!':
+        idx = 1 - idx
+        c = n['sub']
+        n = fn.sn(c)
+    return idx if c is not None and is_atom(c) else None
+
+
 def guards(fn, nid):
     """[(cond id, sense, block)]: conditions that must have evaluated to `sense` for element nid to execute.
     An edge d->s is a guard when it dominates nid's block: s dominates the block and every other predecessor of s is
@@ -533,6 +562,20 @@ def _freeze(env, facts=None):
     return frozenset(env.items())
 
 
+def stored_value(fn, nid, env):
+    """Failure set a store of expression nid puts into its target: the carried value itself, or -- for a boolean computed
+    from a carrier (`const bool failed = n <= 0;`) -- the definite truth value {1} / {0}."""
+    fs = value_of(fn, nid, env)
+    if fs is not None or not env:
+        return fs
+    n = fn.sn(nid)
+    if n is not None and n.get('t', '').replace('const ', '') == 'bool' and n.get('k') in ('binop', 'unop'):
+        v = eval3(fn, nid, env)
+        if v is not None:
+            return fin(1 if v else 0)
+    return None
+
+
 def _transfer(fn, n, env, fb, depth, memo):
     """Effect of executing element n on env.  Returns (new env, terminal) with terminal in
     (None, 'throw', 'noret', 'always-throws')."""
@@ -584,7 +627,7 @@ def _transfer(fn, n, env, fb, depth, memo):
             return env, None
         new = dict(env)
         if n.get('op') == '=':
-            fs = value_of(fn, n['rhs'], env)
+            fs = stored_value(fn, n['rhs'], env)
             if fs is not None:
                 new[c] = fs
             else:
@@ -596,7 +639,7 @@ def _transfer(fn, n, env, fb, depth, memo):
         new = None
         for v in n['vars']:
             c = ('var', v['d'])
-            fs = value_of(fn, v['init'], env) if isinstance(v.get('init'), int) else None
+            fs = stored_value(fn, v['init'], env) if isinstance(v.get('init'), int) else None
             if fs is not None:
                 new = new or dict(env)
                 new[c] = fs
@@ -634,6 +677,7 @@ def explore(fn, start, env, site=None, fb=None, depth=0, memo=None, limit=20000,
     memo = {} if memo is None else memo
     out = Outcome()
     seen = set()
+    sites = set() if site is None else (set(site) if isinstance(site, (set, frozenset, list, tuple)) else {site})
     dq = deque([(start[0], start[1], dict(env), (), dict(facts or {}))])
     steps = 0
     while dq:
@@ -647,7 +691,7 @@ def explore(fn, start, env, site=None, fb=None, depth=0, memo=None, limit=20000,
         stop = False
         for e in elems[i:]:
             n = fn.nodes[e]
-            if site is not None and e == site:
+            if e in sites:
                 out.retry = True
                 stop = True
                 break
@@ -931,8 +975,11 @@ def run_sites(R, fb, fns, rule, dtor_rule=None, want=None, io_layer=lambda fn: T
                 R.ok(dtor_rule, key, site, 'explicit (void) discard in a function that cannot throw')
                 continue
             verdict, msg, o = check_site(fb, fn, call, conv)
-            R.check(verdict == 'ok', dtor_rule, key, site,
-                    '%s in %s (cannot throw): result neither discarded with an explicit (void) nor handled: %s' % (name, fn.q, msg))
+            if verdict == 'ok':     # e.g. a noexcept thin wrapper that hands the result to callers which all test it
+                R.ok(rule, key, site, msg)
+            else:
+                R.bad(dtor_rule, key, site,
+                      '%s in %s (cannot throw): result neither discarded with an explicit (void) nor handled: %s' % (name, fn.q, msg))
             done.append((fn, call, conv, o))
             continue
         verdict, msg, o = check_site(fb, fn, call, conv)
